@@ -93,6 +93,27 @@ func (h *hist) update(t *tinfo, g *gen, op Op) {
 	if !t.Primary {
 		return
 	}
+	if op.Miss {
+		// an update of a row that does not exist (never inserted, or deleted
+		// since) changes nothing and says so
+		id := int64(1<<30) + int64(op.Pick%1000)
+		before := h.synced
+		row, ok := h.newRow(t, g, id, -1, 0)
+		if !ok || h.synced != before {
+			return
+		}
+		name := t.Name + ".Update"
+		_, err := h.call(name, h.mustFn(name), row, h.db())
+		h.note("%s(%s) -> err=%v (no such row)", name, show(row), err)
+		if h.faulted() {
+			return
+		}
+		if err != sql.ErrNoRows {
+			h.fail("update_of_missing_row", "%s of id %d: no such row, expected sql.ErrNoRows, got %v", name, id, err)
+		}
+		h.out.Keys = append(h.out.Keys, "@call:update-miss/"+t.Name)
+		return
+	}
 	old, idx, ok := h.pick(t, op.Pick)
 	if !ok {
 		h.out.Probe("skipped:no live row")
